@@ -8,6 +8,7 @@ import (
 	"sort"
 	"strconv"
 	"strings"
+	"sync"
 	"testing"
 	"time"
 
@@ -184,6 +185,34 @@ func TestC26_PeerList(t *testing.T) {
 				got := px.AddPeers(as)
 				hist = append(hist, fmt.Sprintf("AddPeers(%q)=%d", as, got))
 				invariant("AddPeers", before, true)
+			},
+			"ConcurrentAddPeers": func(t *rapid.T) {
+				// several peers answer a peer request at the same moment: bulk additions that overlap in time must respect
+				// the maximum together, not each for itself
+				if cfg.Max == 0 {
+					t.Skip("no maximum configured")
+				}
+				workers := rapid.IntRange(2, 4).Draw(t, "workers")
+				base := rapid.IntRange(0, 200).Draw(t, "base")
+				before := snapshot()
+				var wg sync.WaitGroup
+				start := make(chan struct{})
+				for w := 0; w < workers; w++ {
+					var as []string
+					for i := 0; i < 300; i++ {
+						as = append(as, fmt.Sprintf("11.%d.%d.%d:6000", base, w, i%250+1))
+					}
+					wg.Add(1)
+					go func(as []string) {
+						defer wg.Done()
+						<-start
+						px.AddPeers(as)
+					}(as)
+				}
+				close(start)
+				wg.Wait()
+				hist = append(hist, fmt.Sprintf("%d overlapping AddPeers of 300 addresses", workers))
+				invariant("overlapping AddPeers", before, true)
 			},
 			"Restart": func(t *rapid.T) {
 				// the node stops (the list is saved), and starts again on the same data directory, possibly with the
